@@ -209,6 +209,24 @@ def run(ctx, model_ok):
         ([("Ürün fiyat = 5", ("num", 5.0)), ("ürün Fiyat = 7", ("num", 7.0)), ("ürün fiyat * 2", ("num", 14.0))], 1),
         ([("цена = 5", ("num", 5.0)), ("Цена = 6", ("num", 6.0)), ("ЦЕНА * 2", ("num", 12.0))], 1),
     ]
+    # names of several words whose FIRST word is not an ordinary word (a month, a zone, an alias word: the stored token is not the
+    # word as typed)
+    curated += [
+        ([("march budget = 500", ("num", 500.0)), ("march budget * 2", ("num", 1000.0)), ("x = march budget + 1", ("num", 501.0)), ("x", ("num", 501.0))], 0),
+        ([("may total = 3", ("num", 3.0)), ("may total = may total + 1", ("num", 4.0)), ("May Total * 2", ("num", 8.0))], 1),
+        ([("euro rate = 5", ("num", 5.0)), ("x = euro rate + 1", ("num", 6.0)), ("euro rate * x", ("num", 30.0))], 0),
+        ([("est fee = 7", ("num", 7.0)), ("est fee + 1", ("num", 8.0))], 0),
+        ([("june rent = 900", ("num", 900.0)), ("july rent = 950", ("num", 950.0)), ("june rent + july rent", ("num", 1850.0))], 0),
+    ]
+    for _ in range(ctx.n(20, 400)):
+        first = rng.sample(["march", "may", "june", "april", "dec", "euro", "est", "cet", "oct", "sept"], 2)
+        second = rng.sample(["budget", "total", "rent", "rate", "fee"], 2)
+        n1, n2 = f"{first[0]} {second[0]}", f"{first[1]} {second[1]}"
+        v1, v2 = float(rng.randint(1, 500)), float(rng.randint(1, 500))
+        op_ = rng.choice("+-*")
+        r_ = {"+": v1 + v2, "-": v1 - v2, "*": v1 * v2}[op_]
+        curated.append(([(f"{n1} = {int(v1)}", ("num", v1)), (f"{n2} = {int(v2)}", ("num", v2)), (f"{n1} {op_} {n2}", ("num", r_)),
+                         (f"z = {n1} {op_} {n2}", ("num", r_)), (f"{n1} = z", ("num", r_)), (f"{n1.title()} * 2", ("num", r_ * 2))], 1))
     for _ in range(ctx.n(30, 600)):
         # random programs over month / zone names only
         pool = rng.sample(["may", "march", "april", "june", "dec", "oct", "est", "cet", "pst", "jst"], 3)
